@@ -766,10 +766,17 @@ class QCumulantFlow(FlowInterface.FlowInterface):
             qn = self.__Qn(phi_bin, self.n_)
             q2n = self.__Qn(phi_bin, 2 * self.n_)
 
-        # compute Eq. (28) Ref. [2]
-        corr2_ev = (pn * Qn.conj() - mq) / (mp * M - mq)
         # compute Eq. (24) Ref. [2]
         w2 = mp * M - mq
+        # compute Eq. (28) Ref. [2]; events without a POI in this bin have
+        # no pairs (w2 = 0) and contribute with zero weight
+        corr2_ev_num = pn * Qn.conj() - mq
+        corr2_ev = np.divide(
+            corr2_ev_num,
+            w2,
+            out=np.zeros_like(corr2_ev_num),
+            where=(w2 != 0),
+        )
         # compute Eq. (29) Ref. [2]
         corr2 = np.vdot(w2, corr2_ev) / np.sum(w2)
 
@@ -802,7 +809,7 @@ class QCumulantFlow(FlowInterface.FlowInterface):
         if self.k_ == 4:
             Q2n = np.array(full_event_quantities[5])
             # compute Eq. (32) Ref. [2]
-            corr4_ev = (
+            corr4_ev_num = (
                 pn * Qn * Qn.conj() * Qn.conj()
                 - q2n * Qn.conj() * Qn.conj()
                 - pn * Qn * Q2n.conj()
@@ -814,9 +821,16 @@ class QCumulantFlow(FlowInterface.FlowInterface):
                 + 2.0 * pn * Qn.conj()
                 + 2.0 * mq * M
                 - 6.0 * mq
-            ) / ((mp * M - 3.0 * mq) * (M - 1) * (M - 2))
+            )
             # compute Eq. (25) Ref. [2]
             w4 = (mp * M - 3.0 * mq) * (M - 1) * (M - 2)
+            # events without a POI in this bin contribute with zero weight
+            corr4_ev = np.divide(
+                corr4_ev_num,
+                w4,
+                out=np.zeros_like(corr4_ev_num),
+                where=(w4 != 0),
+            )
             # compute Eq. (33) Ref. [2]
             corr4 = np.vdot(w4, corr4_ev) / np.sum(w4)
             # compute Eq. (34) Ref. [2]
